@@ -45,14 +45,14 @@ def run_wsgi(case):
     if cl is not None:
         headers.append(('Content-Length', str(cl)))
     headers += [tuple(h) for h in case.get('extra_headers') or []]
-    inp = wsgi_driver.Input(data, short=short)
+    inp = wsgi_driver.Input(data, short=short, fail_at=case.get('fail_at'))
     env = wsgi_driver.build_environ('POST', '/', headers=headers, input_obj=inp)
     req = falcon.Request(env)
     stream = req.bounded_stream
     limit = cl or 0
     B = data[:limit]
     got = bytearray()
-    ctx = lambda: 'data=%r Content-Length=%r short=%r ops=%r' % (data, cl, short, case['ops'])  # noqa: E731
+    ctx = lambda: 'data=%r Content-Length=%r short=%r fail_at=%r ops=%r' % (data, cl, short, case.get('fail_at'), case['ops'])  # noqa: E731
     done_ops = []
 
     def took(chunk, what):
@@ -72,7 +72,34 @@ def run_wsgi(case):
     for op in case['ops']:
         k = op[0]
         before = len(got)
-        if k == 'read':
+        if case.get('fail_at') and k in ('read', 'readline', 'next'):
+            # single-call operations under a transient server failure: the application catches the error and carries
+            # on; a failed call returned nothing, so it must not have moved the stream either
+            n = op[1] if len(op) > 1 else None
+            try:
+                if k == 'next':
+                    chunk = next(stream)
+                elif k == 'read':
+                    chunk = stream.read() if n == 'noarg' else stream.read(n)
+                else:
+                    chunk = stream.readline() if n == 'noarg' else stream.readline(n)
+            except wsgi_driver.TransientInputError:
+                done_ops.append(op + ['failed'])
+                if stream.eof and len(got) < len(B):
+                    raise Violation('wsgi_eof_early', 'after %r (server read failed, nothing returned) eof is True with %d of %d body '
+                                    'bytes delivered; %s' % (done_ops, len(got), len(B), ctx()))
+                continue
+            except StopIteration:
+                eos('next()')
+                done_ops.append(op)
+                continue
+            took(chunk, '%s(%r)' % (k, n))
+            sized = isinstance(n, int) and n >= 0
+            if sized and len(chunk) > n:
+                raise Violation('wsgi_read_exceeds_size', '%s(%d) returned %d bytes; %s' % (k, n, len(chunk), ctx()))
+            if not chunk and not (sized and n == 0):
+                eos('%s(%r)' % (k, n))
+        elif k == 'read':
             n = op[1]
             chunk = stream.read() if n == 'noarg' else stream.read(n)
             took(chunk, 'read(%r)' % (n,))
@@ -165,6 +192,8 @@ def classify_wsgi(case):
         labels.append('line_or_sized_then_read')
     if case.get('short'):
         labels.append('short_reads')
+    if case.get('fail_at'):
+        labels.append('transient_server_read_failure')
     for op in ops:
         labels.append('op:' + op[0])
     return Info(seq or regime in ('cl_shorter', 'cl_longer'), sorted(set(labels)))
@@ -243,7 +272,14 @@ class WsgiRandom(Suite):
         base = st.builds(build, _body, st.sampled_from(['absent', 'exact', 'exact', 'shorter', 'longer']), st.integers(1, 5),
                          st.lists(_wop, min_size=1, max_size=10),
                          st.one_of(st.none(), st.none(), st.lists(st.integers(0, 4), min_size=1, max_size=3)))
-        return st.builds(lambda c, extra: dict(c, extra_headers=extra), base, _extra_headers)
+        plain = st.builds(lambda c, extra: dict(c, extra_headers=extra), base, _extra_headers)
+        # a sixth of the histories run against a server whose read()/readline() fails transiently (nothing consumed) at
+        # 1-3 of its first calls; those histories use the single-call operations only
+        single = st.lists(st.sampled_from([['read', 1], ['read', 3], ['read', 7], ['read', 'noarg'], ['read', -1], ['readline', 'noarg'],
+                                           ['readline', 2], ['next']]), min_size=2, max_size=10)
+        faulty = st.builds(lambda c, ops, fail: dict(c, ops=ops, fail_at=sorted(fail), extra_headers=[]), base, single,
+                           st.sets(st.integers(0, 6), min_size=1, max_size=3))
+        return st.one_of(plain, plain, plain, plain, plain, faulty)
 
     def run(self, case):
         run_wsgi(case)
